@@ -137,7 +137,7 @@ impl Property for C02 {
     fn runs(&self, tier: Tier) -> usize {
         match tier {
             Tier::Quick => 40_000,
-            Tier::Thorough => 150_000,
+            Tier::Thorough => 1_500_000,
         }
     }
 
